@@ -122,15 +122,10 @@ Example C07_close_example :
   exists s s1, reachable s /\ step s (AEnvClose X) = Some s1
                /\ ta s = Writing [1;2] /\ e_in (cy s) = [7;8;9] /\ final s1 = false.
 Proof.
-  assert (R : forall acts s, run (init nat) acts = Some s -> reachable s).
-  { intros acts. generalize (reach_init nat). generalize (init nat).
-    induction acts as [|a acts IH]; intros s0 H0 s; cbn [run].
-    - intros E; inversion E; subst; exact H0.
-    - destruct (step s0 a) as [s'|] eqn:E; [|discriminate]. apply IH. eapply reach_step; eauto. }
-  destruct (run (init nat) [AEnvWrite X [1;2;3]; AEnvWrite Y [7;8;9]; ACopier X 2 false]) as [s|] eqn:E;
-    [|vm_compute in E; discriminate].
-  exists s. pose proof (R _ _ E) as Hr. vm_compute in E. inversion E; subst.
-  eexists. split; [exact Hr|]. split; [vm_compute; reflexivity|]. repeat split.
+  exists (mkSt (mkEnd [3] [] [1;2;3] false false) (mkEnd [7;8;9] [] [7;8;9] false false) (Writing [1;2]) Reading).
+  eexists. split; [|split; [vm_compute; reflexivity|repeat split]].
+  apply (run_reachable [AEnvWrite X [1;2;3]; AEnvWrite Y [7;8;9]; ACopier X 2 false] (reach_init nat)).
+  vm_compute. reflexivity.
 Qed.
 
 (* both directions concurrently ("direction interleavings"): in every reachable state of the pair each peer
